@@ -271,8 +271,8 @@ Definition u_prev_legacy (i : uiter) (span : Z) : uiter :=
 (* ---- the stepping code of /repo (after the fix): every step positions the internal
    iterator from its view; an AutoSpan step only resolves its span through the index and is
    then sliced like any other step ---- *)
-Definition step_fwd (i : uiter) (span : Z) : uiter :=
-  let i := u_reset i (bound_by (span_range (t_e (u_view i)) span) (u_b i)) in
+(* the part of Next / Prev after the view has been reset *)
+Definition fwd_body (i : uiter) : uiter :=
   if tspan (u_view i) =? 0 then i else
   let '(d, ok) := di_seek_ge D (u_di i) (t_s (u_view i)) in
   let i := u_set_di i d in
@@ -282,8 +282,7 @@ Definition step_fwd (i : uiter) (span : Z) : uiter :=
   if satisfied i || match u_err i with Some _ => true | None => false end then i
   else acc_loop true (S (length D)) i.
 
-Definition step_bwd (i : uiter) (span : Z) : uiter :=
-  let i := u_reset i (bound_by (span_range (t_s (u_view i)) (-1 * span)) (u_b i)) in
+Definition bwd_body (i : uiter) : uiter :=
   if tspan (u_view i) =? 0 then i else
   let '(d, ok) := di_seek_le D (u_di i) (t_e (u_view i) - 1) in
   let i := u_set_di i d in
@@ -292,6 +291,12 @@ Definition step_bwd (i : uiter) (span : Z) : uiter :=
   let '(i, _) := accumulate i in
   if satisfied i || match u_err i with Some _ => true | None => false end then i
   else acc_loop false (S (length D)) i.
+
+Definition step_fwd (i : uiter) (span : Z) : uiter :=
+  fwd_body (u_reset i (bound_by (span_range (t_e (u_view i)) span) (u_b i))).
+
+Definition step_bwd (i : uiter) (span : Z) : uiter :=
+  bwd_body (u_reset i (bound_by (span_range (t_s (u_view i)) (-1 * span)) (u_b i))).
 
 (* autoNextSpan / autoPrevSpan: the span, or the iterator carrying the Stamp error *)
 Definition auto_next_span (i : uiter) : uiter + Z :=
